@@ -11,7 +11,8 @@ Driver for C03.  Streams (see `harness/props/c03.py`):
 * `toks <init> W*`               arbitrary (also unbalanced) token words run as a program; spec `-`
 
 token words `W`: `i<test>` `fi` `else` `or` `newif` `o<act>`;
-tests `T F N:<op>:<rel>:<op> D:<int>:<rel>:<int> O:<op> K:<op> X:<xtok>:<xtok> G:<n> S:<k>`;
+tests `T F N:<op>:<rel>:<op> D:<dop>:<rel>:<dop> O:<op> K:<op> X:<xtok>:<xtok> G:<n> S:<k>`;
+operands `<op>` = `l<int> c<n> m<int> r<n>` with any number of `-` in front, `<dop>` = `l<sp> r<n> k<n>x<n>` likewise;
 acts `c<n> s<n> a<n>:<int> w<k>:<0|1> g<n> { }`.
 -/
 namespace PlasVerif.Driver.C03
@@ -25,13 +26,37 @@ def rel? : String → Option Rel
   | "lt" => some .lt | "gt" => some .gt | "eq" => some .eq | "bad" => some .bad | _ => none
 def relStr : Rel → String | .lt => "lt" | .gt => "gt" | .eq => "eq" | .bad => "bad"
 
-def op? (s : String) : Option Operand :=
-  if s.startsWith "l" then (rest1 s).toInt?.map .lit
-  else if s.startsWith "c" then (rest1 s).toNat?.map .cnt
-  else if s.startsWith "m" then (rest1 s).toInt?.map .mac
-  else none
+/-- `<k>x<r>` -/
+def coef? (s : String) : Option (Nat × Nat) :=
+  match s.splitOn "x" with
+  | [k, r] => do pure (← k.toNat?, ← r.toNat?)
+  | _ => none
+
+def opFuel : Nat → String → Option Operand
+  | 0, _ => none
+  | f + 1, s =>
+    if s.startsWith "-" then (opFuel f (rest1 s)).map .neg
+    else if s.startsWith "l" then (rest1 s).toInt?.map .lit
+    else if s.startsWith "c" then (rest1 s).toNat?.map .cnt
+    else if s.startsWith "m" then (rest1 s).toInt?.map .mac
+    else if s.startsWith "r" then (rest1 s).toNat?.map .reg
+    else none
+def op? (s : String) : Option Operand := opFuel (s.length + 1) s
 def opStr : Operand → String
   | .lit n => s!"l{n}" | .cnt c => s!"c{c}" | .mac n => s!"m{n}"
+  | .reg r => s!"r{r}" | .neg o => "-" ++ opStr o
+
+def dopFuel : Nat → String → Option DOperand
+  | 0, _ => none
+  | f + 1, s =>
+    if s.startsWith "-" then (dopFuel f (rest1 s)).map .neg
+    else if s.startsWith "l" then (rest1 s).toInt?.map .lit
+    else if s.startsWith "r" then (rest1 s).toNat?.map .reg
+    else if s.startsWith "k" then (coef? (rest1 s)).map fun (k, r) => .coef k r
+    else none
+def dop? (s : String) : Option DOperand := dopFuel (s.length + 1) s
+def dopStr : DOperand → String
+  | .lit n => s!"l{n}" | .reg r => s!"r{r}" | .coef k r => s!"k{k}x{r}" | .neg o => "-" ++ dopStr o
 
 def xtok? (s : String) : Option XTok :=
   if s.startsWith "c" then (rest1 s).toNat?.map .chr
@@ -49,7 +74,7 @@ def test? (s : String) : Option Test :=
   | ["T"] => some .tru
   | ["F"] => some .fls
   | ["N", a, r, b] => do pure (.num (← op? a) (← rel? r) (← op? b))
-  | ["D", a, r, b] => do pure (.dim (← a.toInt?) (← rel? r) (← b.toInt?))
+  | ["D", a, r, b] => do pure (.dim (← dop? a) (← rel? r) (← dop? b))
   | ["O", a] => do pure (.odd (← op? a))
   | ["K", a] => do pure (.case_ (← op? a))
   | ["X", a, b] => do pure (.ifx (← xtok? a) (← xtok? b))
@@ -59,7 +84,7 @@ def test? (s : String) : Option Test :=
 def testStr : Test → String
   | .tru => "T" | .fls => "F"
   | .num a r b => s!"N:{opStr a}:{relStr r}:{opStr b}"
-  | .dim a r b => s!"D:{a}:{relStr r}:{b}"
+  | .dim a r b => s!"D:{dopStr a}:{relStr r}:{dopStr b}"
   | .odd a => s!"O:{opStr a}"
   | .case_ a => s!"K:{opStr a}"
   | .ifx a b => s!"X:{xtokStr a}:{xtokStr b}"
@@ -150,12 +175,22 @@ end
 def nCounters : Nat := 6
 def nSwitches : Nat := 3
 
-def initSt (cs : List Int) : St :=
+def initSt (cs rs ds : List Int) : St :=
   { cnt := fun k => cs.getD k 0
     sw := fun k => if k < nSwitches then some false else none
-    defd := fun k => k < 2 }
+    defd := fun k => k < 2
+    reg := fun k => rs.getD k 0
+    dreg := fun k => ds.getD k 0 }
 
-def init? (w : String) : Option St := ((w.splitOn ",").mapM String.toInt?).map initSt
+def ints? (w : String) : Option (List Int) := (w.splitOn ",").mapM String.toInt?
+
+/-- `c0,..,c5[;r0,r1,r2[;d0,d1,d2]]`: counters, count registers, dimen registers (sp) -/
+def init? (w : String) : Option St :=
+  match w.splitOn ";" with
+  | [c] => do pure (initSt (← ints? c) [] [])
+  | [c, r] => do pure (initSt (← ints? c) (← ints? r) [])
+  | [c, r, d] => do pure (initSt (← ints? c) (← ints? r) (← ints? d))
+  | _ => none
 
 def obsStr : Except Err (St × List Act) → String
   | .error e => errStr e
